@@ -811,9 +811,10 @@ def agStepGen (s : H) (j : Json) : R (H × Json × Json) := do
     let type ← jfield jstr j "type"
     let defOne ← jfield jbool j "defOne"
     let suppress ← jfield jbool j "suppress"
+    let bare := (← jfieldOpt jbool j "bare") == some true      -- a defense whose status was never set
     let defense := match (← jfieldOpt jstr j "defense") with
       | some d => some d
-      | none => if type == "defense" then some (if defOne then "1.0" else "0.5") else none
+      | none => if type == "defense" && !bare then some (if defOne then "1.0" else "0.5") else none
     let tags := match (← jfieldOpt (jlist jstr) j "tags") with
       | some t => t
       | none => if suppress then ["suppress"] else []
